@@ -18,10 +18,16 @@ pub struct Counting {
     pos: usize,
     chunk: usize,
     pub zero_reads: usize,
+    /// the stream does not end after its data: it stays open and silent
+    open: bool,
+    pub starved: bool,
 }
 impl Counting {
     pub fn new(data: Vec<u8>, chunk: usize) -> Self {
-        Counting { data, pos: 0, chunk, zero_reads: 0 }
+        Counting { data, pos: 0, chunk, zero_reads: 0, open: false, starved: false }
+    }
+    pub fn open(data: Vec<u8>, chunk: usize) -> Self {
+        Counting { data, pos: 0, chunk, zero_reads: 0, open: true, starved: false }
     }
     pub fn consumed(&self) -> usize {
         self.pos
@@ -31,6 +37,11 @@ const SPIN_LIMIT: usize = 64;
 impl AsyncRead for Counting {
     fn poll_read(mut self: Pin<&mut Self>, _: &mut Context<'_>, buf: &mut ReadBuf<'_>) -> Poll<std::io::Result<()>> {
         let left = self.data.len() - self.pos;
+        if left == 0 && self.open {
+            // nothing more will ever come, and nobody will wake the reader: the harness polls by hand
+            self.starved = true;
+            return Poll::Pending;
+        }
         if left == 0 {
             self.zero_reads += 1;
             if self.zero_reads > SPIN_LIMIT {
@@ -53,25 +64,70 @@ fn block<F: std::future::Future>(f: F) -> F::Output {
     rt.block_on(f)
 }
 
-fn run_reader(entry: &str, bytes: Vec<u8>, chunk: usize) -> Result<(bool, usize, usize), String> {
-    guarded(|| {
-        let mut r = Counting::new(bytes, chunk);
-        let ok = block(async {
-            match entry {
-                "payload" => pdu::Payload::read(&mut r).await.is_ok(),
-                "skip" => match pdu::Header::read(&mut r).await {
-                    Ok(h) => pdu::Error::skip_payload(h, &mut r).await.is_ok(),
+/// poll a future by hand; None = it is waiting (for a stream that will never deliver)
+fn poll_once_starved<F: std::future::Future>(f: F) -> Option<F::Output> {
+    let mut f = std::pin::pin!(f);
+    let waker = std::task::Waker::noop();
+    let mut cx = Context::from_waker(waker);
+    // every poll of the stream is ready until it is exhausted, so one poll either finishes the reader or leaves it waiting
+    for _ in 0..4 {
+        if let Poll::Ready(v) = f.as_mut().poll(&mut cx) {
+            return Some(v);
+        }
+    }
+    None
+}
+
+async fn read_entry(entry: &str, r: &mut Counting) -> bool {
+    macro_rules! three {
+        ($t:ty, $kind:expr) => {
+            match $kind {
+                b't' => <$t>::read(r).await.is_ok(),
+                // try_read: Ok(Ok(pdu)) and Ok(Err(header of an Error PDU)) are both values
+                b'y' => <$t>::try_read(r).await.is_ok(),
+                _ => match pdu::Header::read(r).await {
+                    Ok(h) => <$t>::read_payload(h, r).await.is_ok(),
                     Err(_) => false,
                 },
-                "t0" => pdu::SerialNotify::read(&mut r).await.is_ok(),
-                "t1" => pdu::SerialQuery::read(&mut r).await.is_ok(),
-                "t2" => pdu::ResetQuery::read(&mut r).await.is_ok(),
-                "t3" => pdu::CacheResponse::read(&mut r).await.is_ok(),
-                "t8" => pdu::CacheReset::read(&mut r).await.is_ok(),
-                e => panic!("unknown entry {e}"),
             }
-        });
-        (ok, r.consumed(), r.zero_reads)
+        };
+    }
+    match entry {
+        "payload" => pdu::Payload::read(r).await.is_ok(),
+        "skip" => match pdu::Header::read(r).await {
+            Ok(h) => pdu::Error::skip_payload(h, r).await.is_ok(),
+            Err(_) => false,
+        },
+        e => {
+            let kind = e.as_bytes()[0];
+            match &e[1..] {
+                "0" => three!(pdu::SerialNotify, kind),
+                "1" => three!(pdu::SerialQuery, kind),
+                "2" => three!(pdu::ResetQuery, kind),
+                "3" => three!(pdu::CacheResponse, kind),
+                "4" => three!(pdu::Ipv4Prefix, kind),
+                "6" => three!(pdu::Ipv6Prefix, kind),
+                "70" => three!(pdu::EndOfDataV0, kind),
+                "71" => three!(pdu::EndOfDataV1, kind),
+                "8" => three!(pdu::CacheReset, kind),
+                _ => panic!("unknown entry {e}"),
+            }
+        }
+    }
+}
+
+/// Some((ok, consumed, zero reads)); None: the reader is waiting on an open, silent stream
+fn run_reader(entry: &str, bytes: Vec<u8>, chunk: usize, open: bool) -> Result<Option<(bool, usize, usize)>, String> {
+    guarded(|| {
+        if open {
+            let mut r = Counting::open(bytes, chunk);
+            let done = poll_once_starved(read_entry(entry, &mut r));
+            done.map(|ok| (ok, r.consumed(), 0))
+        } else {
+            let mut r = Counting::new(bytes, chunk);
+            let ok = block(read_entry(entry, &mut r));
+            Some((ok, r.consumed(), r.zero_reads))
+        }
     })
 }
 
@@ -80,15 +136,18 @@ fn replay_read(s: &mut Summary, c: &Value) {
     let (typ, ver) = (c["type"].as_u64().unwrap() as u8, c["ver"].as_u64().unwrap() as u8);
     let (len, avail) = (c["len"].as_u64().unwrap() as u32, c["avail"].as_u64().unwrap() as usize);
     let want_ok = c["verdict"] == "ok";
+    let open = c["open"].as_bool().unwrap_or(false);
     let bound = c["bound"].as_u64().unwrap() as usize;
+    let eat = c["eat"].as_u64().unwrap_or(len as u64) as usize;
     let mut bytes = vec![ver, typ, 0, 1];
     bytes.extend_from_slice(&len.to_be_bytes());
     bytes.extend((0..40u8).map(|i| if i % 4 == 3 { i } else { 0 }));
     bytes.truncate(avail);
     for chunk in [1usize, 3, 4096] {
-        match run_reader(entry, bytes.clone(), chunk) {
+        match run_reader(entry, bytes.clone(), chunk, open) {
             Err(m) => s.violation("read:panic", format!("reader {entry} panicked: {m}"), c.clone()),
-            Ok((ok, consumed, zeros)) => {
+            Ok(None) => s.violation("read:waits", format!("reader {entry} (chunk {chunk}) is waiting for more than the {avail} bytes that decide type {typ} ver {ver} length {len}"), c.clone()),
+            Ok(Some((ok, consumed, zeros))) => {
                 if zeros > SPIN_LIMIT {
                     s.violation("read:spin", format!("reader {entry} keeps reading after the stream ended (chunk {chunk})"), c.clone());
                 } else if ok != want_ok {
@@ -96,13 +155,13 @@ fn replay_read(s: &mut Summary, c: &Value) {
                         format!("reader {entry} (chunk {chunk}) returned ok={ok} on type {typ} ver {ver} length {len} with {avail} bytes; specification {}", c["verdict"]), c.clone());
                 } else if consumed > bound {
                     s.violation("read:overconsumes", format!("reader {entry} consumed {consumed} bytes, bound {bound}"), c.clone());
-                } else if ok && consumed != len as usize {
-                    s.violation("read:consumed", format!("reader {entry} consumed {consumed} of a {len}-byte PDU"), c.clone());
+                } else if ok && consumed != eat {
+                    s.violation("read:consumed", format!("reader {entry} consumed {consumed} bytes, specification {eat}"), c.clone());
                 }
             }
         }
     }
-    s.eval_if(avail >= 8, &format!("{entry}:{typ}:{ver}:{len}:{avail}"));
+    s.eval_if(avail >= 8, &format!("{entry}:{typ}:{ver}:{len}:{avail}:{open}"));
 }
 
 fn b(v: &Value) -> Vec<u8> {
